@@ -1425,7 +1425,7 @@ def stage_supply_forms(ctx):
             queries = [gen_ak_query(rng, all_lines or [{'key': 0}]) for _ in range(2)]
             got, exc = impl_ak_files(paths, queries)
             joined, _ = impl_ak('\n'.join(texts), queries)
-            each_ok = all(impl_ak(t, [])[1] is None for t in texts)
+            each_ok = all(impl_ak_files([p], [])[1] is None for p in paths)     # every file loads on its own
             for q, g, j in zip(queries, got, joined):
                 ctx.note_case(('ak-files', tuple(texts), q), nontrivial=g is not None and g[0] == 'opts')
                 ctx.count('supply.authorized_keys.%d_files' % len(texts))
@@ -1494,6 +1494,8 @@ def run(ctx):
         'ends) x lookups aimed at the names in the file (host, address, port); authorized_keys lines with option strings in the '
         'documented OpenSSH grammar (quotes, \\", commas, repeats, keyword case) and free-form ones (partial quotes, escapes, '
         'malformed pieces) x client (host, address, principals, ca); wildcard patterns exhaustively over a small alphabet; '
+        'the same data through every documented interface (path, list of paths, bytes, str, object, callable, tuple) as 1-3 files '
+        'ending with/without newline, CRLF, empty, or cut inside a line; '
         'a case is non-trivial when a line is selected / an entry is returned / a pattern has a wildcard, negation or CIDR; '
         'distinct = distinct (file text, query) tuples')
     ctx.cov['trusted_base'] += [
